@@ -119,6 +119,30 @@ CHECKS_K1 = {
                 "cross-check only.",
         "technique": "guard (exception-escape) contracts decided modularly on the AST with a least-fixpoint over each module's call graph; K1 for the path-sensitive part",
     },
+    "C30": {
+        "text": "Function contracts with a loop invariant on the real Trampoline, TrampolineScheduler and CurrentThreadScheduler. "
+                "Trampoline.run(item): when idle it enqueues exactly the item, marks the trampoline busy, enters the run loop with the "
+                "lock free and - whether the loop returns or an action raises - ends idle with an empty queue; when busy it enqueues "
+                "exactly the item, notifies and returns without invoking anything and without entering the loop (so an action "
+                "scheduled while another runs starts only after that one returned, and there is one runner at a time). Trampoline._run: "
+                "the loop is cut at its invariant (lock free, nothing pending in `ready`) and ONE arbitrary iteration is executed from "
+                "an arbitrary queue: at most one item leaves the queue, it is the head of the (due time, insertion stamp) order and only "
+                "when due <= the clock read in that critical section (never early); only that item is invoked, outside the lock, with no "
+                "other action between choosing and invoking it (due-time order, first-scheduled-first, including everything earlier "
+                "actions scheduled); it is invoked only when its cancellation flag - arbitrary after every earlier action - is false at "
+                "that moment; the loop is left only with an empty queue, decided under the lock; it waits only for a head that is not "
+                "yet due, holding the lock. TrampolineScheduler.schedule/_relative/_absolute hand exactly one ScheduledItem (this "
+                "scheduler, the state, the action, due = now / now + max(0, d) / the given time) to get_trampoline().run and return its "
+                "disposable. CurrentThreadScheduler.get_trampoline is keyed by the current thread: same thread same trampoline, another "
+                "thread another one.",
+        "note": _VTS_NOTE + " Here additionally: the Condition is opaque (wait releases the lock: the queue is arbitrary afterwards); "
+                "`item.scheduler.now` is an opaque monotone clock; WeakKeyDictionary behaves as a dictionary keyed by identity; "
+                "cancellation by ANOTHER thread between the test and invoke is outside (best effort, as the API says). The "
+                "CurrentThreadSchedulerSingleton (threading.local) variant and `ensure_trampoline` are not under contract. On a tree "
+                "whose run loop has a different loop structure the unit leaves the subset and the bounded native runner tramprun.py "
+                "(scenario trees of <= 4 actions with past due-time offsets, one cancellation, two threads) decides that run.",
+        "technique": "function contracts + loop invariant (one arbitrary iteration), PriorityQueue view by contract, symbolic execution of the real methods, SMT",
+    },
     "C42": {
         "text": "Function and closure contracts on the real CatchScheduler under a class invariant I (handler fixed; a cached recursive "
                 "wrapper is a CatchScheduler with the same handler wrapping `_recursive_original`), each proved from an ARBITRARY object "
